@@ -92,6 +92,17 @@ int strcmp(const char *a, const char *b)
 			return 0;
 	}
 }
+int strncmp(const char *a, const char *b, size_t n)
+{
+	for (size_t i = 0; i < n; i++) {
+		unsigned char x = (unsigned char)a[i], y = (unsigned char)b[i];
+		if (x != y)
+			return x < y ? -1 : 1;
+		if (!x)
+			return 0;
+	}
+	return 0;
+}
 int isspace(int c) { return c == ' ' || c == '\t' || c == '\n' || c == '\v' || c == '\f' || c == '\r'; }
 #endif
 
@@ -729,6 +740,13 @@ void h_tokenize(void)
 	small_table();
 	arbitrary_console(0);
 	C.bufp = C.scratch.buf;
+#if defined(TOK_HEAD) /* quick tier stand-in: the line ends within the first TOK_HEAD bytes (the rest of the buffer is NUL) */
+	for (unsigned j = TOK_HEAD; j < CON_LINE; j++)
+		C.scratch.buf[j] = 0;
+#elif defined(TOK_TAIL) /* quick tier stand-in: a long line whose last TOK_TAIL bytes are arbitrary, after plain characters */
+	for (unsigned j = 0; j + TOK_TAIL < CON_LAST; j++)
+		C.scratch.buf[j] = 'a';
+#endif
 	VASSUME(TOK_PRE(&C));
 	struct snap s = snap_of();
 	do_tokenize(&C);
@@ -739,8 +757,14 @@ void h_tokenize(void)
 	VASSERT(fixed_part_same(&s) && ring_bytes_same(&s) && ring_w(&C) == s.writei && ring_r(&C) == s.readi && C.cmd == s.cmd && C.pt == s.pt &&
 			C.bufp == s.bufp && C.fibre.priv == s.fibre.priv && scratch_same(&s, CON_LINE, sizeof(C.scratch)),
 		"C15 the tokenizer writes only the line buffer and the arguments");
+#if !defined(TOK_HEAD)
 	VCOVER(C.argc == 4 && C.argv[3] == C.scratch.buf + 78, "fourth argument is the last character of a full line");
-	VCOVER(C.argc == 1 && s.scratch[40] == ' ' && s.scratch[1] == '"', "quoted blank");
+	VCOVER(C.argc == 1 && s.scratch[70] == ' ' && s.scratch[60] == 'a', "quoted blank near the end");
+#endif
+#if !defined(TOK_TAIL)
+	VCOVER(C.argc == 4 && C.argv[3] == C.scratch.buf + 9 && s.scratch[11] == ' ' && s.scratch[12] == 'b', "more than four tokens");
+	VCOVER(C.argc == 1 && s.scratch[4] == ' ' && s.scratch[1] == '"', "quoted blank");
+#endif
 }
 
 /*
@@ -760,40 +784,55 @@ static bool ref_ws(char ch) { return ch == ' ' || ch == '\t' || ch == '\n' || ch
 static bool ref_q(char ch) { return ch == '\'' || ch == '"'; }
 static void ref_tokenize(const char *l, unsigned max, struct ref *r)
 {
-	unsigned i = 0;
+	/* one pass, one character per iteration (a constant-bound loop keeps symbolic execution cheap) */
+	bool in_token = false;
+	char q = 0; /* the quote that opened the current token, if any */
+	unsigned t = 0;
 	memset(r, 0, sizeof(*r));
-	while (i < max && r->n < REF_MAX) {
-		while (i < max && ref_ws(l[i]))
-			i++;
-		if (i >= max || !l[i])
+	for (unsigned j = 0; j < max; j++) {
+		char ch = l[j];
+		if (!ch)
 			break;
-		unsigned t = r->n++;
-		if (ref_q(l[i])) {
-			char q = l[i++];
-			r->quoted[t] = true;
-			r->start[t] = i;
-			while (i < max && l[i] && l[i] != q)
-				i++;
-			r->len[t] = i - r->start[t];
-			if (i >= max || !l[i]) {
-				r->unterminated = true;
+		if (!in_token) {
+			if (ref_ws(ch))
+				continue; /* unquoted white space separates */
+			if (r->n >= REF_MAX)
 				break;
+			t = r->n++;
+			in_token = true;
+			if (ref_q(ch)) { /* a quoted argument: the quotes are not part of it */
+				q = ch;
+				r->quoted[t] = true;
+				r->start[t] = j + 1;
+				r->len[t] = 0;
+			} else {
+				q = 0;
+				r->start[t] = j;
+				r->len[t] = 1;
 			}
-			i++; /* the closing quote */
-			if (r->len[t] == 0)
-				r->empty_quoted = true;
-			if (i < max && l[i] && !ref_ws(l[i]))
-				r->adjacent = true;
+		} else if (q) {
+			if (ch == q) { /* the matching quote ends it; white space and the other quote inside are ordinary characters */
+				in_token = false;
+				q = 0;
+				if (r->len[t] == 0)
+					r->empty_quoted = true;
+				if (j + 1 < max && l[j + 1] && !ref_ws(l[j + 1]))
+					r->adjacent = true;
+			} else {
+				r->len[t]++;
+			}
 		} else {
-			r->start[t] = i;
-			while (i < max && l[i] && !ref_ws(l[i])) {
-				if (ref_q(l[i]))
+			if (ref_ws(ch)) {
+				in_token = false;
+			} else {
+				if (ref_q(ch))
 					r->midquote = true;
-				i++;
+				r->len[t]++;
 			}
-			r->len[t] = i - r->start[t];
 		}
 	}
+	if (in_token && q)
+		r->unterminated = true;
 }
 static bool arg_is(const console_t *c, int i, const char *orig, unsigned start, unsigned len)
 {
@@ -1067,6 +1106,7 @@ void h_eval_step(void)
 			C.fibre.priv == s.fibre.priv && CON_RING_OK(&C),
 		"C15 console_eval writes only the ring and its own cursor");
 	VASSERT(scratch_same(&s, 0, CON_LINE), "C15 console_eval leaves the 80-byte line buffer alone (a line being edited is not disturbed by an injection)");
+	VASSERT(scratch_same(&s, CON_LINE, sizeof(C.scratch)), "C15 console_eval writes nothing beyond the 80-byte line buffer (its cursor included)");
 	VASSERT(ring_w(&C) == (s.writei + put) % sizeof(C.ringbuf), "C15 console_eval puts as much of the text as the ring takes");
 	VASSERT(ring_holds(s.writei, put, IN.text), "C15 injected text is delivered exactly as injected, in order");
 	VASSERT(r == (put == len ? PT_EXITED : PT_YIELDED) && fibre_runs >= 1,
